@@ -115,14 +115,14 @@ impl Prop for C10 {
     }
     fn budget(&self, tier: Tier) -> u64 {
         match tier {
-            Tier::Quick => 300_000,
-            Tier::Thorough => 10_000_000,
+            Tier::Quick => 600_000,
+            Tier::Thorough => 12_000_000,
         }
     }
     fn required_labels(&self) -> Vec<&'static str> {
         vec!["short", "ctrl_short", "resp_cc_undefined", "req_cmd_unk", "req_cmd_01_op_2", "req_cmd_01_op_other", "req_cmd_06_sel_ff", "req_cmd_06_sel_n", "req_cmd_07", "req_cmd_00", "entry_process", "entry_decode", "entry_get_length", "empty_input"]
     }
-    fn enumerate(&self, _tier: Tier, shard: usize, nshards: usize, f: &mut dyn FnMut(Case)) {
+    fn enumerate(&self, tier: Tier, shard: usize, nshards: usize, f: &mut dyn FnMut(Case)) {
         let cfg = CtxCfg { addr: 0x23, msg_types: vec![0x7E, 0x05], vendors: vec![(0, 0x1234, 0xAB), (1, 0x11223344, 7)] };
         let mut idx = 0usize;
         let mut emit = |bytes: Vec<u8>| {
@@ -161,9 +161,14 @@ impl Prop for C10 {
                 }
             }
         }
+        // every control byte x command x completion code x data length (see C09)
+        let cfg2 = cfg.clone();
+        super::enumer::for_each_control_packet(tier, shard, nshards, &mut |bytes| {
+            f(Case { cfg: cfg2.clone(), ops: vec![Op::Process { bytes, cap: 64, fill: 0x22 }] });
+        });
     }
-    fn enumerated_desc(&self, _tier: Tier) -> Option<String> {
-        Some("for each of 24 reference-encoded packets (all message types, requests and responses): every truncation point 0..len (as is and with the PEC repaired), and every other value of every byte position before the PEC (PEC repaired); each through get_length, decode_packet and process_packet".into())
+    fn enumerated_desc(&self, tier: Tier) -> Option<String> {
+        Some(format!("for each of 24 reference-encoded packets (all message types, requests and responses): every truncation point 0..len (as is and with the PEC repaired), and every other value of every byte position before the PEC (PEC repaired), each through get_length, decode_packet and process_packet; plus process_packet on control messages with {} control bytes x all 256 command codes x completion codes x every data length 0..{}", if tier == Tier::Thorough { "all 256" } else { "10" }, if tier == Tier::Thorough { 20 } else { 18 }))
     }
     fn run(&self, case: &Case) -> CaseResult {
         let mut r = CaseResult::default();
